@@ -75,6 +75,8 @@ def _all(stmts):
         yield st
         if isinstance(st, (C.CFor, C.CWhile)):
             yield from _all(st.body)
+            if isinstance(st, C.CWhile):
+                yield from _all(getattr(st, 'steps', None) or [])
         elif isinstance(st, C.CIf):
             yield from _all(st.body)
             yield from _all(st.orelse)
@@ -145,7 +147,9 @@ def clone_stmt(st):
     if isinstance(st, C.CFor):
         return C.CFor(clone_stmt(st.init) if st.init is not None else None, cl(st.cond), clone_stmt(st.step) if st.step is not None else None, [clone_stmt(x) for x in st.body], st.line)
     if isinstance(st, C.CWhile):
-        return C.CWhile(cl(st.cond), [clone_stmt(x) for x in st.body], st.line)
+        w = C.CWhile(cl(st.cond), [clone_stmt(x) for x in st.body], st.line)
+        w.steps = [clone_stmt(x) for x in (getattr(st, 'steps', None) or [])]
+        return w
     if isinstance(st, C.CIf):
         return C.CIf(cl(st.cond), [clone_stmt(x) for x in st.body], [clone_stmt(x) for x in st.orelse], st.line)
     if isinstance(st, C.CReturn):
@@ -381,6 +385,7 @@ class Walk:
     def delta(self, stmts, v, env, variant):
         """total change of v over one execution of stmts: Rat, or None when it is not the same on every path / not an increment"""
         tot = Rat.const(0)
+        last_assign = {}
         for st in stmts:
             if isinstance(st, (C.CAssign, C.CDecl)) or isinstance(st, C.CExpr) or isinstance(st, C.CReturn):
                 if isinstance(st, C.CAssign) and isinstance(st.target, ast.Name) and st.target.id == v:
@@ -409,8 +414,31 @@ class Walk:
                         return None
                     tot = tot + (hi - lo) * d
             elif isinstance(st, C.CWhile):
-                if v in self.modified_in(st.body):
-                    return None
+                inner_stmts = st.body + list(getattr(st, 'steps', None) or [])
+                if v in self.modified_in(inner_stmts):
+                    # an inner walk  p = a; while (p < a + n) ...  runs n times: its start is the assignment just before it
+                    c = st.cond
+                    if not (isinstance(c, ast.Compare) and len(c.ops) == 1 and isinstance(c.ops[0], (ast.Lt, ast.NotEq)) and isinstance(c.left, ast.Name) and c.left.id in self.tracked and c.left.id != v):
+                        return None
+                    cv = c.left.id
+                    start_e = last_assign.get(cv)
+                    if start_e is None or any(isinstance(n, ast.Name) and n.id in variant | {v} for x in (start_e, c.comparators[0]) for n in ast.walk(x)):
+                        return None
+                    dcv = self.delta(inner_stmts, cv, env, variant | {v})
+                    if dcv is None or not dcv.equals(Rat.const(1)):
+                        return None
+                    try:
+                        a_, b_ = self.ptr_of(start_e, env, []), self.ptr_of(c.comparators[0], env, [])
+                    except Unsupported:
+                        return None
+                    if a_ is None or b_ is None or a_[1] != b_[1]:
+                        return None
+                    d = self.delta(inner_stmts, v, env, variant | {cv})
+                    if d is None:
+                        return None
+                    tot = tot + (b_[2] - a_[2]) * d
+            if isinstance(st, C.CAssign) and isinstance(st.target, ast.Name) and st.op == '=' and st.target.id in self.tracked:
+                last_assign[st.target.id] = st.value
         return tot
 
     def bounds(self, st, env):
@@ -709,9 +737,36 @@ def _at(r, value):
         return None
 
 
+def pointer_for_loops(f):
+    """for (p = a; p < e; p++) over a pointer p: the same loop in while form (initialiser first, the step at the end of every iteration),
+    which the walk turns into a counted loop"""
+    ptrs = {pn for pt, pn in f.params if '*' in pt} | {st.name for st in f.walk() if isinstance(st, C.CDecl) and st.pointer and not st.array}
+    n = 0
+
+    def rec(stmts):
+        nonlocal n
+        out = []
+        for st in stmts:
+            if isinstance(st, (C.CFor, C.CWhile)):
+                st.body = rec(st.body)
+            elif isinstance(st, C.CIf):
+                st.body, st.orelse = rec(st.body), rec(st.orelse)
+            if isinstance(st, C.CFor) and isinstance(st.init, C.CAssign) and isinstance(st.init.target, ast.Name) and st.init.target.id in ptrs:
+                w = C.CWhile(st.cond, st.body, st.line)
+                w.steps = [st.step] if st.step is not None else []
+                out.extend([st.init, w])
+                n += 1
+            else:
+                out.append(st)
+        return out
+    f.body = rec(f.body)
+    return n
+
+
 def normalise(f, funcs, recorded_funcs, recorded_locals):
     """all of the above on one function; returns the number of rewrites; raises Unsupported"""
     n = inline_void_helpers(f, funcs, recorded_funcs)
+    n += pointer_for_loops(f)
     if recorded_locals:
         C.c_inline_new_scalars(f, set(recorded_locals))
     n += carve(f)
